@@ -503,7 +503,8 @@ static int vr_process(rate_t * p, int olen0)
           }
           enter_new_stage(p, occupancy0);
           shift = -stage_dif;
-#define lshift(x,by) (x)=(by)>0?(x)<<(by):(x)>>-(by)
+/* Left-shift the unsigned representation: step_step may be negative. */
+#define lshift(x,by) (x)=(by)>0?(int64_t)((uint64_t)(x)<<(by)):(x)>>-(by)
           lshift(p->current.at.all, shift);
           shift += p->fadeout.is_d - p->current.is_d;
           lshift(p->current.step.all, shift);
